@@ -563,10 +563,11 @@ pub enum Flavour {
   MpmcBounded,
   MpmcUnbounded,
   MpmcRendezvous,
+  Oneshot,
 }
 
 impl Flavour {
-  pub const ALL: [Flavour; 8] = [
+  pub const ALL: [Flavour; 9] = [
     Flavour::SpscBounded,
     Flavour::SpscRendezvous,
     Flavour::MpscBounded,
@@ -575,6 +576,7 @@ impl Flavour {
     Flavour::MpmcBounded,
     Flavour::MpmcUnbounded,
     Flavour::MpmcRendezvous,
+    Flavour::Oneshot,
   ];
   pub fn name(self) -> &'static str {
     match self {
@@ -586,6 +588,7 @@ impl Flavour {
       Flavour::MpmcBounded => "mpmc_bounded",
       Flavour::MpmcUnbounded => "mpmc_unbounded",
       Flavour::MpmcRendezvous => "mpmc_rendezvous",
+      Flavour::Oneshot => "oneshot",
     }
   }
   pub fn multi_producer(self) -> bool {
@@ -595,10 +598,17 @@ impl Flavour {
     matches!(self, Flavour::MpmcBounded | Flavour::MpmcUnbounded | Flavour::MpmcRendezvous)
   }
   pub fn has_batch(self) -> bool {
-    !self.is_rendezvous()
+    !self.is_rendezvous() && self != Flavour::Oneshot
   }
   pub fn has_stream(self) -> bool {
-    !self.is_rendezvous()
+    !self.is_rendezvous() && self != Flavour::Oneshot
+  }
+  /// sync/async forms of the handles exist and convert into each other
+  pub fn has_conversions(self) -> bool {
+    self != Flavour::Oneshot
+  }
+  pub fn has_timed_recv(self) -> bool {
+    self != Flavour::Oneshot
   }
   pub fn is_rendezvous(self) -> bool {
     matches!(self, Flavour::SpscRendezvous | Flavour::MpscRendezvous | Flavour::MpmcRendezvous)
@@ -612,6 +622,8 @@ impl Flavour {
       None
     } else if self.is_rendezvous() {
       Some(0)
+    } else if self == Flavour::Oneshot {
+      Some(1)
     } else {
       Some(cap)
     }
@@ -641,5 +653,124 @@ pub fn make(fl: Flavour, cap: usize, async_ctor: bool) -> (Box<dyn Tx>, Box<dyn 
     Flavour::MpmcBounded => mk!(MpmcBTx, MpmcBRx, mpmc::bounded::<Tok>(cap), mpmc::bounded_async::<Tok>(cap)),
     Flavour::MpmcUnbounded => mk!(MpmcUTx, MpmcURx, mpmc::unbounded::<Tok>(), mpmc::unbounded_async::<Tok>()),
     Flavour::MpmcRendezvous => mk!(MpmcRTx, MpmcRRx, mpmc::rendezvous::rendezvous::<Tok>(), mpmc::rendezvous::rendezvous_async::<Tok>()),
+    Flavour::Oneshot => {
+      let (t, r) = fibre::oneshot::oneshot::<Tok>();
+      (Box::new(OneTx(Some(t))) as Box<dyn Tx>, Box::new(OneRx(r)) as Box<dyn Rx>)
+    }
+  }
+}
+
+// ------------------------------------------------------------------------------------------
+// oneshot: `send(self)` consumes the handle, `recv()` is a future, everything else is absent.
+
+pub struct OneTx(pub Option<fibre::oneshot::Sender<Tok>>);
+
+impl Tx for OneTx {
+  fn is_async(&self) -> bool {
+    true
+  }
+  fn send(&mut self, t: Tok, _p: Plan) -> SendOut {
+    self.try_send(t)
+  }
+  fn try_send(&mut self, t: Tok) -> SendOut {
+    match self.0.take() {
+      Some(h) => SendOut::from_try::<()>(h.send(t)),
+      None => SendOut::unsupported(vec![t]),
+    }
+  }
+  fn send_batch(&mut self, v: Vec<Tok>, _p: Plan) -> SendOut {
+    SendOut::unsupported(v)
+  }
+  fn try_send_batch(&mut self, v: Vec<Tok>) -> SendOut {
+    SendOut::unsupported(v)
+  }
+  fn send_batch_mut(&mut self, v: Vec<Tok>, _p: Plan) -> SendOut {
+    SendOut::unsupported(v)
+  }
+  fn try_send_batch_mut(&mut self, v: Vec<Tok>) -> SendOut {
+    SendOut::unsupported(v)
+  }
+  fn close(&mut self) -> bool {
+    match &self.0 {
+      Some(h) => h.close().is_ok(),
+      None => false,
+    }
+  }
+  fn is_closed(&self) -> bool {
+    self.0.as_ref().map(|h| h.is_closed()).unwrap_or(true)
+  }
+  fn len(&self) -> Option<usize> {
+    None
+  }
+  fn capacity(&self) -> Option<usize> {
+    None
+  }
+  fn is_full(&self) -> Option<bool> {
+    None
+  }
+  fn is_empty(&self) -> Option<bool> {
+    None
+  }
+  fn try_clone(&self) -> Option<Box<dyn Tx>> {
+    self.0.as_ref().map(|h| Box::new(OneTx(Some(h.clone()))) as Box<dyn Tx>)
+  }
+  fn convert(self: Box<Self>) -> Box<dyn Tx> {
+    self
+  }
+}
+
+pub struct OneRx(pub fibre::oneshot::Receiver<Tok>);
+
+impl Rx for OneRx {
+  fn is_async(&self) -> bool {
+    true
+  }
+  fn recv(&mut self, p: Plan) -> RecvOut {
+    RecvOut::one(drive(self.0.recv(), p))
+  }
+  fn try_recv(&mut self) -> RecvOut {
+    RecvOut::try_one(self.0.try_recv())
+  }
+  fn recv_timeout(&mut self, _d: Duration) -> RecvOut {
+    RecvOut { res: RRes::Unsupported, got: vec![] }
+  }
+  fn recv_batch(&mut self, _max: usize, _p: Plan) -> RecvOut {
+    RecvOut { res: RRes::Unsupported, got: vec![] }
+  }
+  fn try_recv_batch(&mut self, _max: usize) -> RecvOut {
+    RecvOut { res: RRes::Unsupported, got: vec![] }
+  }
+  fn recv_batch_mut(&mut self, _max: usize, _p: Plan) -> RecvOut {
+    RecvOut { res: RRes::Unsupported, got: vec![] }
+  }
+  fn try_recv_batch_mut(&mut self, _max: usize) -> RecvOut {
+    RecvOut { res: RRes::Unsupported, got: vec![] }
+  }
+  fn stream_next(&mut self, _p: Plan) -> RecvOut {
+    RecvOut { res: RRes::Unsupported, got: vec![] }
+  }
+  fn close(&mut self) -> bool {
+    self.0.close().is_ok()
+  }
+  fn is_closed(&self) -> bool {
+    self.0.is_closed()
+  }
+  fn len(&self) -> Option<usize> {
+    None
+  }
+  fn capacity(&self) -> Option<usize> {
+    None
+  }
+  fn is_full(&self) -> Option<bool> {
+    None
+  }
+  fn is_empty(&self) -> Option<bool> {
+    None
+  }
+  fn try_clone(&self) -> Option<Box<dyn Rx>> {
+    None
+  }
+  fn convert(self: Box<Self>) -> Box<dyn Rx> {
+    self
   }
 }
